@@ -19,11 +19,15 @@ type Facts struct {
 
 	nrOnce   sync.Once
 	noReturn map[*ssa.Function]bool
+	// noReturnIfTrue[f][i]: f never returns when its bool parameter i is true
+	noReturnIfTrue map[*ssa.Function]map[int]bool
 
 	fwOnce       sync.Once
 	fieldStores  map[*types.Var][]*FieldWrite
 	fieldLoads   map[*types.Var][]ssa.Instruction
 	fieldAddrAll map[*types.Var][]*ssa.FieldAddr
+
+	script *scriptFacts
 }
 
 func (p *Prog) f() *Facts {
@@ -69,20 +73,33 @@ func (p *Prog) NoReturn(fn *ssa.Function) bool {
 	f := p.f()
 	f.nrOnce.Do(func() {
 		nr := map[*ssa.Function]bool{}
+		nrt := map[*ssa.Function]map[int]bool{}
 		changed := true
 		for changed {
 			changed = false
 			for _, fn := range p.Funcs {
-				if nr[fn] {
-					continue
-				}
-				if !p.mayReturn(fn, nr) {
+				if !nr[fn] && !p.mayReturn(fn, nr, nrt, -1) {
 					nr[fn] = true
 					changed = true
 				}
+				if nr[fn] {
+					continue
+				}
+				for i, prm := range fn.Params {
+					if !isBool(prm.Type()) || nrt[fn][i] {
+						continue
+					}
+					if !p.mayReturn(fn, nr, nrt, i) {
+						if nrt[fn] == nil {
+							nrt[fn] = map[int]bool{}
+						}
+						nrt[fn][i] = true
+						changed = true
+					}
+				}
 			}
 		}
-		f.noReturn = nr
+		f.noReturn, f.noReturnIfTrue = nr, nrt
 	})
 	if fn == nil {
 		return false
@@ -91,6 +108,37 @@ func (p *Prog) NoReturn(fn *ssa.Function) bool {
 		return true
 	}
 	return externalNoReturn(fn)
+}
+
+// CallNeverReturns: the call is to a no-return function, or passes a constant true for a
+// bool parameter under which the callee never returns (typeErrorResult(true, ...)).
+func (p *Prog) CallNeverReturns(c *ssa.Call) bool {
+	sc := c.Call.StaticCallee()
+	if sc == nil {
+		return false
+	}
+	if p.NoReturn(sc) {
+		return true
+	}
+	return callNeverReturns(c, p.f().noReturn, p.f().noReturnIfTrue)
+}
+
+func callNeverReturns(c *ssa.Call, nr map[*ssa.Function]bool, nrt map[*ssa.Function]map[int]bool) bool {
+	sc := c.Call.StaticCallee()
+	if sc == nil {
+		return false
+	}
+	if nr[sc] || externalNoReturn(sc) {
+		return true
+	}
+	for i := range nrt[sc] {
+		if i < len(c.Call.Args) {
+			if k, ok := c.Call.Args[i].(*ssa.Const); ok && k.Value != nil && k.Value.String() == "true" {
+				return true
+			}
+		}
+	}
+	return false
 }
 
 func externalNoReturn(fn *ssa.Function) bool {
@@ -104,7 +152,9 @@ func externalNoReturn(fn *ssa.Function) bool {
 	return false
 }
 
-func (p *Prog) mayReturn(fn *ssa.Function, nr map[*ssa.Function]bool) bool {
+// mayReturn: some Return is reachable from the entry. If assumeTrue >= 0, branches on that
+// bool parameter are followed only along the edge taken when it is true.
+func (p *Prog) mayReturn(fn *ssa.Function, nr map[*ssa.Function]bool, nrt map[*ssa.Function]map[int]bool, assumeTrue int) bool {
 	if len(fn.Blocks) == 0 {
 		return true
 	}
@@ -114,6 +164,10 @@ func (p *Prog) mayReturn(fn *ssa.Function, nr map[*ssa.Function]bool) bool {
 				return true
 			}
 		}
+	}
+	var prm ssa.Value
+	if assumeTrue >= 0 {
+		prm = fn.Params[assumeTrue]
 	}
 	seen := map[*ssa.BasicBlock]bool{}
 	var visit func(b *ssa.BasicBlock) bool
@@ -129,8 +183,25 @@ func (p *Prog) mayReturn(fn *ssa.Function, nr map[*ssa.Function]bool) bool {
 			case *ssa.Panic:
 				return false
 			case *ssa.Call:
-				if sc := x.Call.StaticCallee(); sc != nil && (nr[sc] || externalNoReturn(sc)) {
+				if callNeverReturns(x, nr, nrt) {
 					return false
+				}
+			case *ssa.If:
+				if prm != nil {
+					c, pol := x.Cond, true
+					for {
+						u, ok := c.(*ssa.UnOp)
+						if !ok || u.Op != token.NOT {
+							break
+						}
+						c, pol = u.X, !pol
+					}
+					if c == prm {
+						if pol {
+							return visit(b.Succs[0])
+						}
+						return visit(b.Succs[1])
+					}
 				}
 			}
 		}
@@ -152,7 +223,7 @@ func (p *Prog) FirstNoReturn(b *ssa.BasicBlock) int {
 		case *ssa.Panic:
 			return i
 		case *ssa.Call:
-			if sc := x.Call.StaticCallee(); sc != nil && p.NoReturn(sc) {
+			if p.CallNeverReturns(x) {
 				return i
 			}
 		}
